@@ -160,6 +160,25 @@ func cmdCheck(args []string) int {
 				"method": "the real buildSearchQuery is run (go test -overlay); its SQL is parsed and compared with the filter semantics of the statement"})
 		}
 	}
+	for _, b := range cfg.Bounded {
+		if strings.HasPrefix(b, "cosmos-search") {
+			res, err := boundedCosmosSearchQuery(*repo)
+			if err != nil {
+				return fail(err.Error())
+			}
+			nOK := 0
+			for _, r := range res {
+				if r.OK {
+					nOK++
+				} else {
+					boundedViol = append(boundedViol, r)
+				}
+			}
+			boundedOut = append(boundedOut, map[string]any{"name": "cosmos-search", "what": b, "cases": len(res), "cases_ok": nOK,
+				"bound": "|ByIDs| <= 2, |ByGroupIDs| <= 2, |ByStatus| <= 3 (35 filter shapes); WHERE clause evaluated on 2 swarms x 3 ids x 3 groups x 4 statuses",
+				"method": "the real cosmosdb buildSearchQuery is run (go test -overlay); its query is parsed and compared with the filter semantics of the statement; every parameter named must be among the query parameters returned"})
+		}
+	}
 	x.verifyLemmas(*prop)
 	symS := time.Since(t1).Seconds()
 	dir, _ := os.MkdirTemp("", "govc-")
